@@ -1089,8 +1089,14 @@ def rule_match_sites(rep: Report, repo: Repo, rule: str) -> None:
             msg = "directory match path does not include the walk root"
         elif not removes:
             msg = "a matching subdirectory is not removed from the list os.walk descends"
+        if ok and any(isinstance(b, ast.BinOp) and isinstance(b.op, ast.Add) and norm(b.left) == dm.root_var for b in ast.walk(resolved)):
+            # root + os.sep + ...: the first root os.walk yields is the input path as document() prepared it - with a trailing
+            # separator - so plain concatenation produces '<root>//<sub>/', which absolute-path patterns do not match
+            ok, msg = False, ("the walk root is concatenated with a separator instead of being joined with os.path.join: the first root "
+                              "already ends in a separator, the tested path contains '//' and absolute directory patterns do not match "
+                              "direct children of the input directory")
     rep.check(ok, rule, where, "spec.match_file(join(root, join(subdir, ''))) -> subdirs.remove(subdir)", msg,
-              witness="-e build/")
+              witness="-e build/  /  -e /abs/proj/gen/ with auto-exclusion off")
     f = roles["file"]
     ok = False
     msg = "files are not matched against the exclusion spec"
@@ -1653,6 +1659,24 @@ def rule_topdir_test(rep: Report, repo: Repo, rule: str) -> None:
                               key=f"{rule}|topdir-compare")
     if count == 0:
         raise AnalysisError("anchor vanished: no top-directory comparison found in the index block of document()")
+    # below the top directory the title is <prefix><configured separator><relative directory>: a string built from the relative
+    # directory and something else names the separator setting, not a literal
+    for n in walk_no_nested(dm.walk):
+        if not isinstance(n, (ast.JoinedStr, ast.BinOp)) or isinstance(dm.parents.get(n), (ast.BinOp, ast.JoinedStr, ast.FormattedValue)):
+            continue
+        if isinstance(n, ast.BinOp) and not isinstance(n.op, ast.Add):
+            continue
+        names = {norm(x) for x in ast.walk(n) if isinstance(x, (ast.Name, ast.Attribute))}
+        if not (names & (rel_names | title_holders)):
+            continue
+        others = {x for x in names if x not in rel_names and x not in title_holders and not any(x == h.split(".")[0] for h in title_holders)
+                  and not x.startswith("os")}
+        if not others:
+            continue
+        rep.check(any(x.endswith("module_path_separator") for x in names), rule, where, norm(n)[:70],
+                  "an index title is put together from the prefix and the relative directory with a literal separator instead of "
+                  "rst.module_path_separator: the index titles no longer match the page titles of the same directory",
+                  witness="module_path_separator: '::'  =>  index 'proj.net' next to pages 'proj::net/sockets'")
     rep.floor(rule, 1, "top-directory comparisons")
 
 
@@ -2126,3 +2150,23 @@ def rule_index_name_collision(rep: Report, repo: Repo, rule: str) -> None:
               "is written last wins (today the page), so the directory has either no toctree or one page fewer than files",
               witness="cminx -o out dir   with dir/index.cmake and dir/b.cmake: out/index.rst is the page of index.cmake, no toctree",
               key=f"{rule}|index-name-collision")
+
+
+def rule_page_order_by_name(rep: Report, repo: Repo, rule: str) -> None:
+    """"the files of a directory in sorted name order": the loop that produces the pages runs over sorted(<file names>) - the
+    names themselves, not tuples or derived strings whose order can differ from the order of the names ('utils.cmake' sorts
+    after 'utils-extra.cmake', the stem 'utils' before 'utils-extra')."""
+    rep.rule(rule, "the page loop iterates sorted(...) over the file names themselves (optionally filtered), without key and "
+                   "without wrapping the names into tuples or derived strings")
+    dm = DocumentModel(repo)
+    _tf, _td, page = emission_loops(dm)
+    if page is None:
+        raise AnalysisError("anchor vanished: page loop of document()")
+    base, _preds, unknown = loop_source(page, dm, ("document_single_file",))
+    it = page.iter
+    mapped = [u for u in unknown if u.startswith("maps ")]
+    ok = base == dm.files_var and not mapped and isinstance(page.target, ast.Name)
+    rep.check(ok, rule, f"{MOD}:document", f"for {norm(page.target)} in {norm(it)[:70]}",
+              "the pages of a directory are not produced in the sorted order of the file names: the sequence printed in stdout mode "
+              "follows another key (a derived page name, a tuple) and differs for names where one is a prefix of the other",
+              witness="utils.cmake next to utils-extra.cmake: expected utils-extra, utils")
